@@ -7,9 +7,22 @@ import copy
 import time
 
 
+def _execute(world, plan, focus):
+    """Execute a candidate the way the batch does: in a forked child for worlds that isolate their runs, so that
+    state leaked by one failing candidate cannot make every later candidate fail as well."""
+    if getattr(world, "ISOLATE", None) == "fork":
+        from .isolate import forked
+        from .core import Ctx
+
+        def job():
+            return world.execute(plan, focus).result()
+        return Ctx.rebuild(focus, forked(job), [])
+    return world.execute(plan, focus)
+
+
 def _fails(world, plan, focus, target):
     try:
-        ctx = world.execute(plan, focus)
+        ctx = _execute(world, plan, focus)
     except Exception:
         return None
     for v in ctx.violations:
